@@ -117,10 +117,23 @@ def main():
             verdict = 'not run'
         what, needs = WHAT.get(name, ('', ''))
         rows.append('| %s | %s | %s | %s |' % (name, what, needs, verdict))
-    print('| seed | change | needs | `./check %s` on the changed tree |' % '<its property>')
-    print('|---|---|---|---|')
-    for r in rows:
-        print(r)
+    out = ['| seed | change | needs | `./check %s` on the changed tree |' % '<its property>', '|---|---|---|---|'] + rows
+    det = sum(1 for r in rows if '| VIOLATION' in r)
+    und = sum(1 for r in rows if '| UNDECIDED' in r)
+    mis = sum(1 for r in rows if '**missed**' in r)
+    out.append('')
+    out.append('%d seeded changes: %d reported as VIOLATION of their property, %d UNDECIDED (exit 2: the changed text is outside what the extraction / contract headers '
+               'can read - never an alarm, never a pass), %d missed (exit 0).' % (len(rows), det, und, mis))
+    text = '\n'.join(out)
+    import sys
+    if '--write' in sys.argv:
+        d = os.path.join(VERIF, 'DESIGN.md')
+        s = open(d).read()
+        a = s.index('<!-- SEED_TABLE_BEGIN -->') + len('<!-- SEED_TABLE_BEGIN -->')
+        b = s.index('<!-- SEED_TABLE_END -->')
+        open(d, 'w').write(s[:a] + '\n' + text + '\n' + s[b:])
+    else:
+        print(text)
 
 
 if __name__ == '__main__':
